@@ -263,10 +263,14 @@ TrackerLive(c) ==
     /\ UNCHANGED <<cfg, byih, ports, db, invalid, orphans, reserved, crashed>>
 
 \* design-level outcome of the tracker transaction
+\* (intended design: the transaction is refused unless the handle is still the registered torrent of that id - as the
+\*  code is, a caller that looked the torrent up before a remove + re-add of the id writes into the NEW torrent's record)
 TrackerOutcome(c) ==
     IF ~pc[c].a.valid THEN "err"
+    ELSE IF cfg.atomic
+    THEN (IF pc[c].id \in DOMAIN db /\ pc[c].id \in DOMAIN torrents /\ torrents[pc[c].id].h = pc[c].h THEN "ok" ELSE "err")
     ELSE IF pc[c].id \in DOMAIN db THEN "ok"
-    ELSE IF cfg.atomic THEN "err" ELSE "panic"
+    ELSE "panic"
 
 -----------------------------------------------------------------------------
 (* operations taken at quiescence                                           *)
@@ -281,8 +285,9 @@ BumpUpd(id, cnt) ==
 
 \* CleanDatabase
 CleanViol(out) == IF out # "ok" THEN "C14.clean.failed" ELSE ""
-CleanUpd ==
-    /\ db' = [i \in (DOMAIN db) \ invalid |-> db[i]]
+\* keepLive = FALSE is the code as it is: every id of the invalid list is deleted, also one that was added again since
+CleanUpd(keepLive) ==
+    /\ db' = [i \in (DOMAIN db) \ (IF keepLive THEN invalid \ DOMAIN torrents ELSE invalid) |-> db[i]]
     /\ invalid' = {}
     /\ UNCHANGED <<cfg, torrents, byih, ports, orphans, reserved, crashed>>
 
